@@ -5,17 +5,43 @@ package main
 // which deps.dev/api/v3 the constants are computed from).
 
 import (
+	"fmt"
 	"go/ast"
 	"go/types"
+	"os"
 	"path/filepath"
+
+	"golang.org/x/tools/go/packages"
 
 	"verifharness/fw"
 )
 
+func loadTolerant(dir string) (*packages.Package, error) {
+	cfg := &packages.Config{
+		Mode: packages.NeedName | packages.NeedFiles | packages.NeedSyntax | packages.NeedTypes | packages.NeedTypesInfo | packages.NeedImports | packages.NeedDeps,
+		Dir:  dir,
+		Env:  append(os.Environ(), "GOFLAGS=-mod=mod", "GOPROXY=off", "GOSUMDB=off", "GOTOOLCHAIN=local"),
+	}
+	ps, err := packages.Load(cfg, ".")
+	if err != nil {
+		return nil, err
+	}
+	if len(ps) != 1 || ps[0].Types == nil || ps[0].TypesInfo == nil || len(ps[0].Syntax) == 0 {
+		return nil, fmt.Errorf("%s: cannot load package", dir)
+	}
+	return ps[0], nil
+}
+
 func resolveSystems(repo string) *Systems {
 	p, err := fw.LoadPkg(filepath.Join(repo, "util", "resolve"))
 	if err != nil {
-		return &Systems{Err: err.Error()}
+		// The package may no longer type-check as a whole (stringer's generated
+		// `_ = x[NPM-3]` guards reject a changed constant) while the constants
+		// themselves still evaluate: load again, tolerating errors.
+		p, err = loadTolerant(filepath.Join(repo, "util", "resolve"))
+		if err != nil {
+			return &Systems{Err: err.Error()}
+		}
 	}
 	names, vals := fw.ConstsOfType(p, "System")
 	if len(names) == 0 {
